@@ -10,6 +10,7 @@
 //verif:stub fmt.Sprintf -> rt.Sprintf
 //verif:stub fmt.Sprint -> rt.Sprint
 //verif:stub (crypto/x509/pkix.Name).String -> rt.StubNameString
+//verif:stub net/url.Parse -> rt.StubURLParse
 //verif:merge (time.Time).Before
 //verif:merge (time.Time).After
 //verif:merge (time.Time).Equal
@@ -24,6 +25,7 @@
 package zzverifrt
 
 import (
+	"net/url"
 	"crypto/x509/pkix"
 	"encoding/asn1"
 	"math/big"
@@ -215,3 +217,13 @@ func StubNameString(n pkix.Name) string { return AtomString(Name("pkixname")) }
 
 // StubOIDString models (asn1.ObjectIdentifier).String for error texts.
 func StubOIDString(o asn1.ObjectIdentifier) string { return AtomString(Name("oidtext")) }
+
+// StubURLParse models net/url.Parse: an error (and, as documented, a nil URL) or a URL every field of which is an
+// arbitrary value. Harnesses that care about the URL bind their own model.
+func StubURLParse(raw string) (*url.URL, error) {
+	n := Name("url.parse")
+	if Choose(n+".err", 2) == 1 {
+		return nil, NewEnvError("url")
+	}
+	return Havoc[*url.URL](n), nil
+}
